@@ -937,12 +937,20 @@ CONC_PROGS = {"ii": 2, "ii2": 2, "ixi": 2, "upd": 2, "rej": 2, "syncs": 2, "ia":
               "ttl": 2, "tti": 2, "three": 3, "three2": 3, "burst": 2, "ttix": 2, "grow": 2, "iax": 2, "farw": 2, "farx": 2, "iasy": 2}
 CONC_QUICK = ["ii", "upd", "rej", "ixi", "wgt", "xget", "burst", "ttix", "grow", "iax", "farx", "iasy"]
 CONC_LIGHT = ["ii", "rej", "syncs", "grow"]
+# programs replayed once more with scaled queues (flush point, read slots, write slots): small programs
+# then reach a full queue, the writers' retry loop and maintenance triggered by the flush point
+SCALED = (2, 3, 2)
+CONC_SCALED = ["burst", "ii2", "three2"]
 
 
 def conc_constants(prog, emit, real, dev):
     k = {"NKeys": 2, "MaxInfo": 8, "MaxRepeats": 4, "Dev": set(dev), "Threads": CONC_PROGS[prog], "Prog": prog,
          "Emit": emit}
-    if real:
+    if real == "scaled":
+        # the queues as small as in model checking, everything else as in the code: the real cache is
+        # run with the same queue sizes through the scaled-queues hook
+        k.update({"RLog": SCALED[1], "WLog": SCALED[2], "Flush": SCALED[0], "SBatch": 500, "Period": 1280})
+    elif real:
         k.update({"RLog": 384, "WLog": 384, "Flush": 64, "SBatch": 500, "Period": 1280})
     else:
         k.update({"RLog": 3, "WLog": 2, "Flush": 2, "SBatch": 6, "Period": 6})
@@ -993,14 +1001,15 @@ def stage_conc_mc(ctx, progs):
             ctx.model_failures.append((name, r["violated"] or r["error"], r["out"]))
 
 
-def stage_conc_s(ctx, progs, max_per_prog, random_runs):
+def stage_conc_s(ctx, progs, max_per_prog, random_runs, scaled=False):
     """TLC's interleavings forced on real threads; then seeded random schedules."""
     import random
     rnd = random.Random(ctx.seed)
+    pre = "cq_" if scaled else "cs_"
     for prog in progs:
-        name = "cs_" + prog
+        name = pre + prog
         cfg = os.path.join(ctx.wd, name + ".cfg")
-        V.write_cfg(cfg, constants=conc_constants(prog, True, True, V.SDEV), view="View")
+        V.write_cfg(cfg, constants=conc_constants(prog, True, "scaled" if scaled else True, V.SDEV), view="View")
         rc, outp, wall = V.run_tlc(ctx.wd, "MC_Conc.tla", cfg, workers=1, timeout=1800, out=name + ".out")
         r = V.parse_mc(outp)
         if not r["ok"]:
@@ -1017,6 +1026,8 @@ def stage_conc_s(ctx, progs, max_per_prog, random_runs):
             keep = lines[:max_per_prog // 2] + rnd.sample(lines[max_per_prog // 2:], max_per_prog - max_per_prog // 2)
         else:
             keep = lines
+        if scaled:
+            keep = [json.dumps(dict(json.loads(l), scaled=list(SCALED))) + "\n" for l in keep]
         with open(beh, "w") as f:
             f.writelines(keep)
         os.remove(beh_all)
@@ -1025,12 +1036,11 @@ def stage_conc_s(ctx, progs, max_per_prog, random_runs):
         ctx.transitions += r["generated"]
     if random_runs:
         # the same programs under seeded random schedules (no expectation from the model: monitors only)
-        name = "cs_random"
+        name = pre + "random"
         beh = os.path.join(ctx.wd, name + ".beh.ndjson")
-        src = os.path.join(ctx.wd, "cs_%s.beh.ndjson" % progs[0])
         protos = []
         for prog in progs:
-            with open(os.path.join(ctx.wd, "cs_%s.beh.ndjson" % prog)) as f:
+            with open(os.path.join(ctx.wd, "%s%s.beh.ndjson" % (pre, prog))) as f:
                 protos.append(json.loads(f.readline()))
         with open(beh, "w") as f:
             for i in range(random_runs):
@@ -1183,6 +1193,7 @@ def run_conc_property(ctx):
     progs = CONC_QUICK if quick else list(CONC_PROGS)
     stage_conc_mc(ctx, progs)
     stage_conc_s(ctx, progs, 400 if quick else 0, 300 if quick else 5000)
+    stage_conc_s(ctx, CONC_SCALED, 300 if quick else 0, 150 if quick else 3000, scaled=True)
     if ctx.prop == "C02":
         stage_conc_f(ctx, 30 if quick else 600, 4, 25)
         stage_race(ctx, 30 if quick else 600, 10)
